@@ -490,7 +490,10 @@ pub fn execute(t: &Trace, stats: &mut Stats, record: bool) -> Outcome {
                 let fail_end = c_before + buf.len();
                 if *k != io::ErrorKind::Interrupted && moves_on && aftermath.is_none() && !fmt_keeps_going(&op) && is_char_boundary(input, fail_end) && applied != Applied::Vectored
                     && std::str::from_utf8(&h.st().accepted).is_ok()
+                    && buf.is_ascii()
                 {
+                    // (ASCII-only records: a formatting layer may slice a record anywhere, and a
+                    // failure at a slice boundary inside a character leaves the parser inside it)
                     // (a vectored call only attempts its first non-empty slice, which may end inside
                     // a character)
                     // error aftermath: the client gives the record up, abandons whatever sequence
